@@ -16,6 +16,9 @@ from core import HARNESS, REPO, VERIF, Violation, guarded, require
 
 ID = "C19"
 LEVEL = "exploration"
+LEVEL_TEXT = (
+    "Field-level agreement with a reference conversion on every generated PIN text; the thorough tier adds coverage-guided atheris campaigns with the same oracle inside the target."
+)
 TECHNIQUE = (
     "Hypothesis-generated PIN texts from a grammar against a field-level reference conversion (losslessness, "
     "validity predicate, idempotence); thorough tier adds an atheris coverage-guided campaign whose target decodes "
